@@ -927,6 +927,66 @@ func c20EvalCase(c *Ctx, vars []c20Var, roAll bool, e *aExpr, tags ...string) {
 	c.Case("eval/"+c20EnvArgs(vars, roAll)+"/"+e.enc(), e.size() >= 3, append(tags, tag)...)
 }
 
+// c20ShiftStress builds a grammatical expression around shifts whose count is negative, >= 64 or
+// huge, given literally, through unary minus, through a variable, or with <<= / >>=.  The values of
+// such shifts are outside the property's domain (bash is platform-defined there), so only "no Go
+// panic, and the model agrees with the code" is checked on them.
+func c20ShiftStress(r *Rand) ([]c20Var, *aExpr) {
+	counts := []int64{-1, -2, -63, -64, -65, -128, 64, 65, 127, 128, 1 << 32, 1 << 40, -(1 << 40), 1<<63 - 1, -(1<<63 - 1), 63, 0}
+	cnt := counts[r.Intn(len(counts))]
+	if r.Intn(4) == 0 {
+		cnt = int64(r.Intn(300)) - 150
+	}
+	lit := func(v int64) *aExpr {
+		if v < 0 {
+			return aU("minus", false, aW(strconv.FormatInt(-v, 10)))
+		}
+		return aW(strconv.FormatInt(v, 10))
+	}
+	vars := []c20Var{{name: "x", val: strconv.Itoa(r.Intn(40) - 20)}, {name: "y", val: strconv.FormatInt(cnt, 10)}}
+	var count *aExpr
+	switch r.Intn(4) {
+	case 0:
+		count = lit(cnt)
+	case 1:
+		count = aW("y")
+	case 2:
+		count = aP(aB("sub", aW("0"), lit(-cnt)))
+	default:
+		vars = append(vars, c20Var{name: "z", val: "y"})
+		count = aW("z")
+	}
+	left := []*aExpr{aW("1"), aW("x"), lit(-8), aW("255"), aP(aB("add", aW("x"), aW("3")))}[r.Intn(5)]
+	var e *aExpr
+	switch r.Intn(5) {
+	case 0:
+		e = aB("shl", left, count)
+	case 1:
+		e = aB("shr", left, count)
+	case 2:
+		e = aB("shlAssgn", aW("x"), count)
+	case 3:
+		e = aB("shrAssgn", aW("x"), count)
+	default:
+		e = aB("add", aB(r.Pick([]string{"shl", "shr"}), left, count), aB(r.Pick([]string{"shlAssgn", "shrAssgn"}), aW("x"), count))
+	}
+	if r.Intn(3) == 0 {
+		e = aB("ternQuest", aW("1"), aB("ternColon", e, aW("0")))
+	}
+	return vars, e.parenthesize()
+}
+
+// c20NoPanic evaluates a grammatical expression in process and fails on a Go panic.
+func c20NoPanic(c *Ctx, vars []c20Var, e *aExpr, tag string) {
+	vars = c20CompleteVars(vars, e)
+	got := c20Eval(vars, false, e.toSyntax())
+	c.Op("eval "+c20EnvArgs(vars, false)+" "+e.enc(), got)
+	c.Case("stress/"+c20EnvArgs(vars, false)+"/"+e.enc(), true, tag)
+	if strings.HasPrefix(got, "panic") {
+		c.Fail("eval "+c20EnvArgs(vars, false)+" "+e.enc(), "expand.Arithm panics on a grammatical expression")
+	}
+}
+
 func c20ParseStreams(c *Ctx, e *aExpr) {
 	r := c.R
 	// print: the model's printArith tokens parsed by both sides
@@ -1682,6 +1742,12 @@ func c20Compare(c *Ctx, cases []c20ShellCase) {
 			}
 		}
 		if cs.noBash {
+			// interpreter only (inputs outside the property's domain, e.g. shift counts outside
+			// 0..63, where bash is platform-defined): a Go panic is a failure whatever the domain
+			if r.in.Panic != "" {
+				c.Fail(cs.witness, fmt.Sprintf("interpreter panics (%s)", r.in.Panic))
+			}
+			c.Hist["shell-nopanic:"+cs.ctx]++
 			continue
 		}
 		if r.sh.TimedOut || r.in.TimedOut {
@@ -1791,6 +1857,9 @@ func c20(c *Ctx) {
 		case "atoi":
 			s := unhx(rest)
 			c.Op("atoi "+hx(s), strconv.FormatInt(expand.VerifAtoi(s), 10))
+		case "shnopanic":
+			// interpreter only: must not panic (input outside the domain, bash platform-defined)
+			shellCases = append(shellCases, c20ShellCase{script: c20Unesc(rest), ctx: "corpus-nopanic", witness: l, noBash: true})
 		case "parseerr":
 			// an expression the parser must reject and bash must fail on
 			_, accepted := c20Parse(rest)
@@ -1827,6 +1896,18 @@ func c20(c *Ctx) {
 		c20EvalCase(c, vars, roAll, e, "wild")
 		c20ParseStreams(c, e)
 
+		// shifts with counts outside 0..63 (outside the domain): no panic, model = code
+		if i%4 == 0 {
+			svars, se := c20ShiftStress(r)
+			c20NoPanic(c, svars, se, "shift-stress")
+			if i%(4*max(1, shellEvery)) == 0 && len(shellCases) < nShell+80 {
+				if text, ok := c20ExprText(se, false); ok {
+					script := c20Assignments(svars) + r.Pick([]string{"echo \"v=$(( " + text + " ))\"\n", "(( " + text + " ))\necho \"st=$?\"\n", "arr=(a b c)\necho \"${arr[( " + text + " ) & 1]}\"\n"})
+					shellCases = append(shellCases, c20ShellCase{script: script, ctx: "shift-stress", witness: "sh " + c20Esc(script), noBash: true})
+				}
+			}
+		}
+
 		// domain: spec = code, and interp = bash
 		dvars, names, lvals := c20DomainEnv(r)
 		depth := 1 + r.Intn(5)
@@ -1844,6 +1925,11 @@ func c20(c *Ctx) {
 		ans, tag, orc := c20OracleRun(dvars, de)
 		c.Hist["domain:"+tag]++
 		if ans == "" {
+			if tag == "out-of-domain" {
+				// overflow / shift count outside 0..63: no bash comparison, but the code must not
+				// panic and the model must agree
+				c20NoPanic(c, dvars, de, "ood-nopanic")
+			}
 			continue
 		}
 		got := c20Eval(dvars, false, de.toSyntax())
